@@ -63,6 +63,14 @@ def build_jobs(t: str, sd: int):
             ss = settings([v])
             for other in ss[1:]:
                 add(name, rec, opts, ss[0], other, ["userslots"])
+    # shared variables; also with an options object that has been used for another program before
+    for v in ([6, 10] if not thorough else [4, 6, 8, 9, 10]):
+        fam = gen_opt.shared_reader_family("A", v) + gen_opt.index_family("A", v)[:4]
+        for (name, rec, opts) in fam:
+            base = {"version": v, "optimize": {"scratch_slots": False}}
+            for other in ({"version": v, "optimize": {"scratch_slots": True}}, {"version": v, "optimize": {"scratch_slots": True, "_reused": True}},
+                          {"version": v, "optimize": {"_reused": True}}, {"version": v, "optimize": None}):
+                add(name, rec, opts, base, other, ["userslots"])
     # routine families and control skeletons: option pairs at one version and version pairs
     for v in ([6, 8] if not thorough else [4, 5, 6, 7, 8, 9, 10]):
         fam = gen_subs.sub_family("A", v, thorough)
@@ -105,6 +113,8 @@ def _o(s):
     o = s.get("optimize")
     if o is None:
         return ""
+    if o.get("_reused"):
+        return "[%s%s reused]" % ("s" if o.get("scratch_slots") else "-", "f" if o.get("frame_pointers") else "-")
     return "[%s%s]" % ("s" if o.get("scratch_slots") else "-", "f" if o.get("frame_pointers") else "-")
 
 
